@@ -11,7 +11,9 @@ compared with each other and with the parsed .proto files (sa/schema.py):
              Python enum of the same name
   PB-IDENT   values assigned to double fields are plain attribute values (no arithmetic / formatting)
   PB-HAS     optional fields the writer sets conditionally are read under HasField
-  PB-LEAF    the leaf factories (exact / interval, integer / float), evaluated: the numbers of the message unchanged
+  PB-LEAF    the leaf factories (exact / interval, integer / float), evaluated: the numbers of the message unchanged;
+             the writer's exact-or-interval builders, evaluated: a number into `exact`, an interval (also one whose
+             ends coincide) into `interval`
   PB-STATE   no mutable default argument of a reader / writer function is changed or handed out
   PB-NULL    builders are total on objects built with default arguments: no constructor-nullable
              attribute is iterated / dereferenced / subscripted without a dominating None test, and
